@@ -276,4 +276,42 @@ theorem ref_rmMajSites {b : Bag} (h : Good b) (num den : Nat) (ends ig iN : Bool
     simp only [ha', Bool.not_false, if_true, Prod.mk.injEq, Option.some.injEq] at e ⊢
     exact ⟨e.1, e.2, h⟩
 
+/-! ### `Replace` with a regular expression -/
+
+theorem ref_replaceRe {b : Bag} (h : Good b) (ok : Bool) (seqs : List Seq) : Refines b (.replaceRe ok seqs) := by
+  intro s' st e
+  cases ok with
+  | false =>
+    simp only [Spec.stepOp, Model.stepOp, Bool.not_false, if_true, Prod.mk.injEq, Option.some.injEq] at e ⊢
+    exact ⟨e.1, e.2, h⟩
+  | true =>
+    have hrows : (abs b).rows.zipIdx.map (fun (x : (String × Seq) × Nat) => (x.1.1, seqs.getD x.2 x.1.2)) =
+        regexSeqs (pairs b) seqs := rfl
+    have hflag : (replaceRegexBag seqs b).2 =
+        ((abs b).isAlign && (regexSeqs (pairs b) seqs).any (fun r => (r.2.length : Int) != (abs b).length)) := by
+      have hp := pairs_replaceRegexBag seqs b
+      by_cases ha : b.isAlign = true
+      · simp only [abs_isAlign, ha, Bool.true_and, h.rect.abs_length ha]
+        rw [← hp]
+        simp [replaceRegexBag, ha, pairs, List.any_map, Function.comp_def]
+      · have : b.isAlign = false := by simpa using ha
+        simp [replaceRegexBag, this]
+    simp only [Spec.stepOp, Bool.not_true, Bool.false_eq_true, if_false] at e
+    rw [hrows, ← hflag] at e
+    split at e
+    · simp at e
+    · rename_i hok
+      simp only [Prod.mk.injEq, Option.some.injEq] at e
+      obtain ⟨e1, e2⟩ := e
+      subst e1 e2
+      have hok' : (replaceRegexBag seqs b).2 = false := by simpa using hok
+      obtain ⟨k, i, n, a, al, _, _⟩ := replaceRegexBag_fields seqs b
+      refine ⟨?_, by simp [Model.stepOp, hok'], ?_⟩
+      · simp only [Model.stepOp, Bool.not_true, Bool.false_eq_true, if_false]
+        have hp := pairs_replaceRegexBag seqs b
+        simp only [abs, hp]
+        rfl
+      · simp only [Model.stepOp, Bool.not_true, Bool.false_eq_true, if_false]
+        exact h.transfer_seqs k i n a al (rect_replaceRegexBag seqs h.rect hok')
+
 end Gv.Proofs.BagAbs
